@@ -143,6 +143,31 @@ func runC17Inner(c *C17Case) (string, string) { //nolint:cyclop,gocyclo
 			return "other-username-authenticates", "a password derived for another username verifies"
 		}
 	}
+	// --- the same handler asked about neighbouring (username, realm) pairs whose concatenations
+	// coincide: each answer is about its own pair, whatever was asked before
+	if ok0 {
+		askPair := func(user, realm string) (string, string) {
+			_, k, ok := handler(&turn.RequestAttributes{Username: user, Realm: realm, Method: stun.MethodAllocate,
+				SrcAddr: &net.UDPAddr{IP: net.IPv4(10, 1, 0, 9), Port: 5000}})
+			if ok && !bytes.Equal(k, ref.LongTermKey(user, realm, refPassword(c.Secret, user))) {
+				return "key-of-another-pair", fmt.Sprintf("asked about (%q, %q) right after a neighbouring pair, the handler returned a key that is not the long-term key of that username, realm and its own password", user, realm)
+			}
+
+			return "", ""
+		}
+		var pairs [][2]string
+		if c.Kind == "rest" && c.User != "" {
+			last := username[len(username)-1:]
+			pairs = [][2]string{{username, c.Realm}, {username[:len(username)-1], last + c.Realm}, {username, c.Realm}}
+		} else if c.Kind != "rest" {
+			pairs = [][2]string{{username, "0" + c.Realm}, {username + "0", c.Realm}, {username, "0" + c.Realm}}
+		}
+		for _, pr := range pairs {
+			if k, m := askPair(pr[0], pr[1]); k != "" {
+				return k, m
+			}
+		}
+	}
 	// --- validity window: every whole second around the expiry
 	var probes []int64
 	for d := int64(-c.Window); d <= int64(c.Window); d++ {
